@@ -246,8 +246,6 @@ def generate(tier):
                     sp += 1
                     add(build_struct(fl, assign, nmode, flip, sp))
     for fl in lists:
-        if fl.n == 0 and fl.style != 'u':
-            continue
         alph = 'srimxyz' if fl.n <= 1 else ('srimz' if (tier == 'quick' or fl.n > 2) else 'srimxyz')
         for assign in itertools.product(alph, repeat=fl.n):
             assign = ''.join(assign)
@@ -307,6 +305,8 @@ def generate(tier):
                 sp += 1
                 add(build_struct(fl, assign, 'd', 0, sp, ctx=ctx))
                 add(build_enum(fl, assign, 'e', 'r', 0, True, sp, ctx=ctx))
+    from .common import decoy_layer
+    cases += decoy_layer([c for c in cases if c is not None])
     seen, out = set(), []
     for c in cases:
         if c.key not in seen:
